@@ -585,7 +585,7 @@ Print Assumptions C07_generated_segment_sizes.
 (* ---------------------------------------------------------------- round 8: generated call sequences, index selection, pvFill *)
 From C07 Require Gen_Protocol.
 From Coq Require Import String.
-From C07 Require Import ProtoSyntax ProtoSem ProtoProofs FitSem UHashSem UHashProofs FillModel MHashSem MHashProofs SelectModel SelEditModel.
+From C07 Require Import ProtoSyntax ProtoSem ProtoProofs FitSem UHashSem UHashProofs FillModel MHashSem MHashProofs SelectModel SelEditModel SelectReach.
 Local Open Scope string_scope.
 
 (* The statement trees of DataIndexes::AddRaw / RemoveRaw / UpdateRaw(old,new) / UpdateRaw(raw, offset, item, assigner) are
@@ -796,3 +796,24 @@ Theorem C07_selection_edit_frame :
   forall (rs : list Z) o l, incl l rs -> incl (op_rows o) rs -> incl (sel_apply o l) rs.
 Proof. exact selection_edit_frame. Qed.
 Print Assumptions C07_selection_edit_frame.
+
+(* ---------------------------------------------------------------- final round: the premise `consistent` discharged
+
+   pvSelect / pvSelectRec equal the brute-force filter on EVERY index state reachable from the empty one ... *)
+Theorem C07_pvselect_all_histories :
+  forall R ct rs s q eqs f,
+  reach ct rs s -> (forall k, R k k = true) -> NoDup (map fst eqs) -> (forall c, In c q <-> In c (map fst eqs)) ->
+  Permutation (pv_select R ct s rs q eqs f) (filter (fun r => sat_eqs ct eqs r && f r) rs).
+Proof. exact pvselect_all_histories. Qed.
+Print Assumptions C07_pvselect_all_histories.
+
+(* ... and on every table state reachable by the DataTable-level operations (incl. allocation failures) the statement tree
+   of pvSelect DUMPED from the source runs and returns a permutation of the brute-force filter of the current rows *)
+Theorem C07_generated_pvselect_every_table_state :
+  forall R st q eqs f,
+  TableOps.treach st -> (forall k, R k k = true) -> NoDup (map fst eqs) -> (forall c, In c q <-> In c (map fst eqs)) ->
+  exists l,
+    sel_stmts R (TableOps.tct st) (TableOps.tidx st) (TableOps.trows st) q eqs f Gen_Protocol.T_pvSelect (fun _ => None) None = Some l /\
+    Permutation l (filter (fun r => sat_eqs (TableOps.tct st) eqs r && f r) (TableOps.trows st)).
+Proof. exact generated_pvselect_every_table_state. Qed.
+Print Assumptions C07_generated_pvselect_every_table_state.
